@@ -222,6 +222,9 @@ def run(ctx):
     rule_r3(facts, ctx)
     rule_r4(facts, ctx)
     ctx.floor("C01.R4", 2, "consume and produce bodies")
+    from . import c03
+    c03.rule_r9(facts, ctx, rule_id="C01.R5")
+    ctx.floor("C01.R5", 4, "position/fill-level updates computed from values read under the same lock acquisition")
     ctx.floor("C01.R1", 4, "writes of rpos/used in consume and wpos/used in produce")
     ctx.floor("C01.R2", 1, "Buffer constructor")
     ctx.floor("C01.R3", 2, "from_raw_parts_mut in Circ::full_buffer + Circ.len initialisation")
